@@ -41,20 +41,20 @@ def noOOB {α} (l : List (Option α)) : Bool := l.all Option.isSome
 /-! ## 1. Vector (src/Linear_Algebra.cpp §1) -/
 
 /-- `Vector::operator[](i)`, const and non-const: `if(i < 0 || i >= dimension)` -/
-def vecIndexMeaningful (dim i : Nat) : Prop := i < dim
+abbrev vecIndexMeaningful (dim i : Nat) : Prop := i < dim
 def vecIndexGuard (dim i : Nat) : G := if i ≥ dim then stop else pass
 def vecIndexReads (xs : List Rat) (i : Nat) : List (Option Rat) := [xs[i]?]
 
 /-- `Dot`, `operator+`, `operator-`, `operator+=`, `operator-=`, `operator*(Vector)`:
     `if(dimension != rhs.dimension)` -/
-def vecPairMeaningful (n m : Nat) : Prop := n = m
+abbrev vecPairMeaningful (n m : Nat) : Prop := n = m
 def vecPairGuard (n m : Nat) : G := if n ≠ m then stop else pass
 /-- `for(i < dimension) … components[i] … v[i]` -/
 def vecPairReads (xs ys : List Rat) : List (Option Rat) :=
   (List.range xs.length).flatMap (fun i => [xs[i]?, ys[i]?])
 
 /-- `Cross`: `if(dimension != 3 || rhs.Size() != 3)` -/
-def crossMeaningful (n m : Nat) : Prop := n = 3 ∧ m = 3
+abbrev crossMeaningful (n m : Nat) : Prop := n = 3 ∧ m = 3
 def crossGuard (n m : Nat) : G := if n ≠ 3 ∨ m ≠ 3 then stop else pass
 def crossReads (xs ys : List Rat) : List (Option Rat) :=
   [xs[1]?, ys[2]?, xs[2]?, ys[1]?, xs[2]?, ys[0]?, xs[0]?, ys[2]?, xs[0]?, ys[1]?, xs[1]?, ys[0]?]
@@ -77,13 +77,13 @@ def Mat.row (m : Mat) (i : Nat) : Option Rat := (m.c[i]?).map (fun _ => 0)
 def Mat.const (r c : Nat) (v : Rat) : Mat := ⟨r, c, List.replicate r (List.replicate c v)⟩
 
 /-- `Matrix::operator[](i)`, const and non-const: `if(i < 0 || i >= rows)` — also when `rows = 0` -/
-def matIndexMeaningful (rows i : Nat) : Prop := i < rows
+abbrev matIndexMeaningful (rows i : Nat) : Prop := i < rows
 def matIndexGuard (rows i : Nat) : G := if i ≥ rows then stop else pass
 def matIndexReads (m : Mat) (i : Nat) : List (Option Rat) := [m.row i]
 
 /-- `Matrix(std::vector<std::vector<double>> entries)`: `columns = entries.empty() ? 0 : entries[0].size()`,
     then `for(i < rows) if(entries[i].size() != columns)`; the request is the list of row lengths -/
-def matEntriesMeaningful (lens : List Nat) : Prop := ∀ a ∈ lens, ∀ b ∈ lens, a = b
+abbrev matEntriesMeaningful (lens : List Nat) : Prop := ∀ a ∈ lens, ∀ b ∈ lens, a = b
 def matEntriesGuard (lens : List Nat) : G :=
   let columns := match lens with
     | [] => 0
@@ -94,7 +94,7 @@ def matEntriesGuard (lens : List Nat) : G :=
     (`R ≥ 1`, every block row has `C` blocks) with `rws r c` rows and `cls r c` columns in block
     `(r,c)`.  As coded: `row != 0 && Columns(row,col) != Columns(row-1,col)` or
     `col != 0 && Rows(row,col) != Rows(row,col-1)` makes the request invalid. -/
-def blockMeaningful (R C : Nat) (rws cls : Nat → Nat → Nat) : Prop :=
+abbrev blockMeaningful (R C : Nat) (rws cls : Nat → Nat → Nat) : Prop :=
   ∀ r, r < R → ∀ c, c < C → rws r c = rws r 0 ∧ cls r c = cls 0 c
 def blockValid (R C : Nat) (rws cls : Nat → Nat → Nat) : Bool :=
   (List.range R).all fun r => (List.range C).all fun c =>
@@ -103,44 +103,44 @@ def blockGuard (R C : Nat) (rws cls : Nat → Nat → Nat) : G :=
   if blockValid R C rws cls then pass else stop
 
 /-- `Delete_Row(row)`, `Return_Row(row)`: `if(row < 0 || row >= rows)` -/
-def matRowMeaningful (rows i : Nat) : Prop := i < rows
+abbrev matRowMeaningful (rows i : Nat) : Prop := i < rows
 def matRowGuard (rows i : Nat) : G := if i ≥ rows then stop else pass
 def matRowReads (m : Mat) (i : Nat) : List (Option Rat) := [m.row i]
 
 /-- `Delete_Column(column)`, `Return_Column(column)`: `if(column < 0 || column >= columns)` -/
-def matColMeaningful (cols j : Nat) : Prop := j < cols
+abbrev matColMeaningful (cols j : Nat) : Prop := j < cols
 def matColGuard (cols j : Nat) : G := if j ≥ cols then stop else pass
 /-- `for(i < rows) components[i].erase(begin + column)` / the entries of the returned column -/
 def matColReads (m : Mat) (j : Nat) : List (Option Rat) := (List.range m.rows).map (fun i => m.get i j)
 
 /-- `Plus`, `Minus`, `operator+=`, `operator-=` (and `operator+`, `operator-`):
     `if(rows != M.Rows() || columns != M.Columns())`  (fix 9df8ec7) -/
-def matSumMeaningful (r1 c1 r2 c2 : Nat) : Prop := r1 = r2 ∧ c1 = c2
+abbrev matSumMeaningful (r1 c1 r2 c2 : Nat) : Prop := r1 = r2 ∧ c1 = c2
 def matSumGuard (r1 c1 r2 c2 : Nat) : G := if r1 ≠ r2 ∨ c1 ≠ c2 then stop else pass
 def matSumReads (a b : Mat) : List (Option Rat) :=
   (List.range a.rows).flatMap fun i => (List.range a.cols).flatMap fun j => [a.get i j, b.get i j]
 
 /-- `Product(const Matrix&)`: `if(columns != M.Rows())` -/
-def matProdMeaningful (_r1 c1 r2 _c2 : Nat) : Prop := c1 = r2
+abbrev matProdMeaningful (_r1 c1 r2 _c2 : Nat) : Prop := c1 = r2
 def matProdGuard (_r1 c1 r2 _c2 : Nat) : G := if c1 ≠ r2 then stop else pass
 def matProdReads (a b : Mat) : List (Option Rat) :=
   (List.range a.rows).flatMap fun i => (List.range b.cols).flatMap fun j =>
     (List.range a.cols).flatMap fun k => [a.get i k, b.get k j]
 
 /-- `Product(const Vector&)`: `if(v_rhs.Size() != columns)` -/
-def matVecMeaningful (_rows cols n : Nat) : Prop := n = cols
+abbrev matVecMeaningful (_rows cols n : Nat) : Prop := n = cols
 def matVecGuard (_rows cols n : Nat) : G := if n ≠ cols then stop else pass
 def matVecReads (a : Mat) (v : List Rat) : List (Option Rat) :=
   (List.range a.rows).flatMap fun i => (List.range a.cols).flatMap fun j => [a.get i j, v[j]?]
 
 /-- `operator*(const Vector& v_left, const Matrix& M)`: `if(v_left.Size() != M.Rows())` -/
-def vecMatMeaningful (n rows _cols : Nat) : Prop := n = rows
+abbrev vecMatMeaningful (n rows _cols : Nat) : Prop := n = rows
 def vecMatGuard (n rows _cols : Nat) : G := if n ≠ rows then stop else pass
 def vecMatReads (v : List Rat) (a : Mat) : List (Option Rat) :=
   (List.range a.cols).flatMap fun i => (List.range a.rows).flatMap fun j => [v[j]?, a.get j i]
 
 /-- `Trace`, `Determinant`: `if(rows != columns)` / `if(!Square())` -/
-def squareMeaningful (rows cols : Nat) : Prop := rows = cols
+abbrev squareMeaningful (rows cols : Nat) : Prop := rows = cols
 def squareGuard (rows cols : Nat) : G := if rows ≠ cols then stop else pass
 def traceReads (a : Mat) : List (Option Rat) := (List.range a.rows).map (fun i => a.get i i)
 /-- top level of `Determinant` (the minors are matrices of their own, guarded again) -/
@@ -152,7 +152,7 @@ def detReads (a : Mat) : List (Option Rat) :=
 /-- `Inverse`: `if(!Square())`, `else if(!Invertible())` i.e. `Determinant() == 0`; `det` is the
     value `Determinant()` returns (exact arithmetic: the third exit, a zero pivot, is then
     unreachable — property C05) -/
-def inverseMeaningful (rows cols : Nat) (det : Rat) : Prop := rows = cols ∧ det ≠ 0
+abbrev inverseMeaningful (rows cols : Nat) (det : Rat) : Prop := rows = cols ∧ det ≠ 0
 def inverseGuard (rows cols : Nat) (det : Rat) : G :=
   if rows ≠ cols then stop else if det = 0 then stop else pass
 
@@ -171,7 +171,7 @@ def detAsCoded (c : List (List Rat)) : Rat := detF (c.length + 1) c
 
 /-- `Rotation_Matrix(alpha, dim, axis)`: `dim == 2` returns; `dim == 3` requires
     `axis.Size() == 3`; every other `dim` stops -/
-def rotationMeaningful (dim : Int) (axisN : Nat) : Prop := dim = 2 ∨ (dim = 3 ∧ axisN = 3)
+abbrev rotationMeaningful (dim : Int) (axisN : Nat) : Prop := dim = 2 ∨ (dim = 3 ∧ axisN = 3)
 def rotationGuard (dim : Int) (axisN : Nat) : G :=
   if dim = 2 then pass else if dim = 3 then (if axisN ≠ 3 then stop else pass) else stop
 def rotationReads (dim : Int) (axis : List Rat) : List (Option Rat) :=
@@ -181,17 +181,17 @@ def rotationReads (dim : Int) (axis : List Rat) : List (Option Rat) :=
 
 /-- a valid abscissa list in the simplest form: at least three points, every earlier point
     strictly below every later one -/
-def validAbscissae (xs : List Rat) : Prop := 3 ≤ xs.length ∧ xs.Pairwise (· < ·)
+abbrev validAbscissae (xs : List Rat) : Prop := 3 ≤ xs.length ∧ xs.Pairwise (· < ·)
 
 /-- `Interpolation(arg_values, func_values, x_dim, f_dim)` -/
-def interpCtorMeaningful (xs ys : List Rat) : Prop := xs.length = ys.length ∧ validAbscissae xs
+abbrev interpCtorMeaningful (xs ys : List Rat) : Prop := xs.length = ys.length ∧ validAbscissae xs
 def interpCtorGuard (xs ys : List Rat) (xd fd : Rat) : G :=
   match Interp.mk xs ys xd fd with
   | .ok _ => pass
   | .error _ => stop
 
 /-- `Interpolation(data, x_dim, f_dim)`: every row must have exactly two entries, then as above -/
-def interpTableMeaningful (data : List (List Rat)) : Prop :=
+abbrev interpTableMeaningful (data : List (List Rat)) : Prop :=
   (∀ r ∈ data, r.length = 2) ∧ validAbscissae (data.map (fun r => r.getD 0 0))
 def interpTableGuard (data : List (List Rat)) (xd fd : Rat) : G :=
   if data.all (fun r => r.length = 2) then
@@ -200,7 +200,7 @@ def interpTableGuard (data : List (List Rat)) (xd fd : Rat) : G :=
 
 /-- the abscissa is inside the tabulated domain, or outside it by less than one percent of the
     edge interval -/
-def inDomain (N : Nat) (x : Nat → Rat) (v : Rat) : Prop :=
+abbrev inDomain (N : Nat) (x : Nat → Rat) (v : Rat) : Prop :=
   (x 0 ≤ v ∧ v ≤ x (N - 1)) ∨ rabs (v - x 0) < (x 1 - x 0) / 100 ∨ rabs (v - x (N - 1)) < (x (N - 1) - x (N - 2)) / 100
 
 /-- `Locate(x)` (the guard of Interpolate / Derivative / operator() as well) -/
@@ -224,7 +224,7 @@ def integrateGuard (N : Nat) (x : Nat → Rat) (st : Interp.LState) (v1 v2 : Rat
     match Interp.locate N x st1 hi with
     | .error _ => stop
     | .ok _ => pass
-def integrateMeaningful (N : Nat) (x : Nat → Rat) (v1 v2 : Rat) : Prop := inDomain N x v1 ∧ inDomain N x v2
+abbrev integrateMeaningful (N : Nat) (x : Nat → Rat) (v1 v2 : Rat) : Prop := inDomain N x v1 ∧ inDomain N x v2
 
 /-- `Local_Minimum(x_1,x_2)` / `Local_Maximum`: `Check_For_Error(x_2 < x_1, …)`, then
     `Interpolate(x_1)`, `Interpolate(x_2)`, `Locate(x_1)`, `Locate(x_2)` -/
@@ -243,11 +243,11 @@ def localExtGuard (N : Nat) (x : Nat → Rat) (st : Interp.LState) (v1 v2 : Rat)
           match Interp.locate N x s3 v2 with
           | .error _ => stop
           | .ok _ => pass
-def localExtMeaningful (N : Nat) (x : Nat → Rat) (v1 v2 : Rat) : Prop :=
+abbrev localExtMeaningful (N : Nat) (x : Nat → Rat) (v1 v2 : Rat) : Prop :=
   v1 ≤ v2 ∧ inDomain N x v1 ∧ inDomain N x v2
 
 /-- `Interpolation_2D(x_val, y_val, func_values, …)` -/
-def interp2CtorMeaningful (xs ys : List Rat) (f : List (List Rat)) : Prop :=
+abbrev interp2CtorMeaningful (xs ys : List Rat) (f : List (List Rat)) : Prop :=
   f.length = xs.length ∧ (∀ r ∈ f, r.length = ys.length) ∧ validAbscissae xs ∧ validAbscissae ys
 def interp2CtorGuard (xs ys : List Rat) (f : List (List Rat)) (xd yd fd : Rat) : G :=
   match Interp.mk2 xs ys f xd yd fd with
@@ -271,7 +271,7 @@ def interp2TableGuard (t : List (List Rat)) (xd yd fd : Rat) : G :=
         interp2CtorGuard xs ys (xs.map (fun _ => ys.map (fun _ => 0))) xd yd fd
       else stop
 /-- the table is the complete grid of valid abscissa lists `xs × ys`, x-major -/
-def interp2TableMeaningful (t : List (List Rat)) : Prop :=
+abbrev interp2TableMeaningful (t : List (List Rat)) : Prop :=
   (∀ r ∈ t, r.length = 3) ∧
   ∃ xs ys : List Rat, validAbscissae xs ∧ validAbscissae ys ∧
     t.map (fun r => (r.getD 0 0, r.getD 1 0)) = xs.flatMap (fun a => ys.map (fun b => (a, b)))
@@ -285,7 +285,7 @@ def interp2EvalGuard (Nx : Nat) (x : Nat → Rat) (sx : Interp.LState) (Ny : Nat
     match Interp.locate Ny y sy vy with
     | .error _ => stop
     | .ok _ => pass
-def interp2EvalMeaningful (Nx : Nat) (x : Nat → Rat) (Ny : Nat) (y : Nat → Rat) (vx vy : Rat) : Prop :=
+abbrev interp2EvalMeaningful (Nx : Nat) (x : Nat → Rat) (Ny : Nat) (y : Nat → Rat) (vx vy : Rat) : Prop :=
   inDomain Nx x vx ∧ inDomain Ny y vy
 /-- `x_values[i], x_values[i+1], y_values[j], y_values[j+1], f[i][j], f[i+1][j], f[i+1][j+1], f[i][j+1]` -/
 def interp2EvalReads (Nx Ny i j : Nat) : List (Option Rat) :=
@@ -293,7 +293,7 @@ def interp2EvalReads (Nx Ny i j : Nat) : List (Option Rat) :=
 
 /-! ## 4. Find_Root (src/Numerics.cpp §2): the values at the bracket ends, `none` = NaN -/
 
-def findRootMeaningful (fl fr : Option Rat) : Prop :=
+abbrev findRootMeaningful (fl fr : Option Rat) : Prop :=
   ∃ a b, fl = some a ∧ fr = some b ∧ (a = 0 ∨ b = 0 ∨ (a < 0 ∧ 0 < b) ∨ (0 < a ∧ b < 0))
 def findRootGuard (fl fr : Option Rat) : G :=
   match fl, fr with
@@ -308,7 +308,7 @@ def methods1D : List String :=
 def methodsMC : List String := ["Monte-Carlo", "Vegas", "Miser"]
 
 /-- `Integrate(func,a,b,method,…)`: `if(a == b) return 0.0;` comes BEFORE the dispatch -/
-def integrate1Meaningful (method : String) : Prop := method ∈ methods1D
+abbrev integrate1Meaningful (method : String) : Prop := method ∈ methods1D
 def integrate1Guard (a b : Rat) (method : String) : G :=
   if a = b then pass
   else if method = "Trapezoidal" then pass
@@ -320,7 +320,7 @@ def integrate1Guard (a b : Rat) (method : String) : G :=
   else stop
 
 /-- `Integrate_2D`, `Integrate_3D` (both overloads) -/
-def integrateNDMeaningful (method : String) : Prop := method ∈ methods1D ++ methodsMC
+abbrev integrateNDMeaningful (method : String) : Prop := method ∈ methods1D ++ methodsMC
 def integrateNDGuard (method : String) : G :=
   if method = "Trapezoidal" ∨ method = "Gauss-Legendre" ∨ method = "Gauss-Kronrod" ∨ method = "Tanh-Sinh"
       ∨ method = "Adaptive-Simpson" ∨ method = "Gauss-Legendre_2" then pass
@@ -328,65 +328,65 @@ def integrateNDGuard (method : String) : G :=
   else stop
 
 /-- `Integrate_MC` -/
-def integrateMCMeaningful (method : String) : Prop := method ∈ methodsMC
+abbrev integrateMCMeaningful (method : String) : Prop := method ∈ methodsMC
 def integrateMCGuard (method : String) : G :=
   if method = "Monte-Carlo" then pass else if method = "Vegas" then pass else if method = "Miser" then pass else stop
 
 /-- `Integrate_Gauss_Legendre(function_values, roots_and_weights)` (rows of two entries) -/
-def gaussLegendreMeaningful (n m : Nat) : Prop := n = m
+abbrev gaussLegendreMeaningful (n m : Nat) : Prop := n = m
 def gaussLegendreGuard (n m : Nat) : G := if n ≠ m then stop else pass
 def gaussLegendreReads (fv : List Rat) (rw : List (List Rat)) : List (Option Rat) :=
   (List.range fv.length).flatMap fun i => [fv[i]?, (rw[i]?).bind (fun r => r[1]?)]
 
 /-! ## 6. Special functions (src/Special_Functions.cpp) -/
 
-def factorialMeaningful (n : Nat) : Prop := n ≤ 170
+abbrev factorialMeaningful (n : Nat) : Prop := n ≤ 170
 def factorialGuard (n : Nat) : G := if n > 170 then stop else pass
 
-def binomialMeaningful (n k : Int) : Prop := 0 ≤ n ∧ 0 ≤ k
+abbrev binomialMeaningful (n k : Int) : Prop := 0 ≤ n ∧ 0 ≤ k
 def binomialGuard (n k : Int) : G := if k < 0 ∨ n < 0 then stop else pass
 
-def gammaLnMeaningful (x : Rat) : Prop := 0 < x
+abbrev gammaLnMeaningful (x : Rat) : Prop := 0 < x
 def gammaLnGuard (x : Rat) : G := if x ≤ 0 then stop else pass
 
-def gammaQMeaningful (x a : Rat) : Prop := 0 ≤ x ∧ 0 < a
+abbrev gammaQMeaningful (x a : Rat) : Prop := 0 ≤ x ∧ 0 < a
 def gammaQGuard (x a : Rat) : G := if x < 0 ∨ a ≤ 0 then stop else pass
 
-def invGammaPMeaningful (a : Rat) : Prop := 0 < a
+abbrev invGammaPMeaningful (a : Rat) : Prop := 0 < a
 def invGammaPGuard (a : Rat) : G := if a ≤ 0 then stop else pass
 
 /-- `Round(N, digits)`: `if(N == 0) return 0;` comes BEFORE `if(digits > 7)` -/
-def roundMeaningful (digits : Nat) : Prop := digits ≤ 7
+abbrev roundMeaningful (digits : Nat) : Prop := digits ≤ 7
 def roundGuard (N : Rat) (digits : Nat) : G := if N = 0 then pass else if digits > 7 then stop else pass
 
 /-- `VSH_Y_Component`, `VSH_Psi_Component`: `switch(component)` with cases 0, 1, 2 -/
-def vshMeaningful (component : Int) : Prop := component = 0 ∨ component = 1 ∨ component = 2
+abbrev vshMeaningful (component : Int) : Prop := component = 0 ∨ component = 1 ∨ component = 2
 def vshGuard (component : Int) : G :=
   if component = 0 then pass else if component = 1 then pass else if component = 2 then pass else stop
 
 /-- `Inv_Erf(p)`: `if(fabs(p - 1.0) < 1e-16) return 10.0; else if(fabs(p) >= 1.0)` stop.
     Meaningful: `-1 < p < 1`, or p indistinguishable from 1 (saturated to 10 with a warning). -/
 def invErfEps : Rat := 1 / 10 ^ 16
-def invErfMeaningful (p : Rat) : Prop := -1 < p ∧ p < 1 + invErfEps
+abbrev invErfMeaningful (p : Rat) : Prop := -1 < p ∧ p < 1 + invErfEps
 def invErfGuard (p : Rat) : G :=
   if rabs (p - 1) < invErfEps then pass else if rabs p ≥ 1 then stop else pass
 
 /-! ## 7. Statistics (src/Statistics.cpp) -/
 
 /-- `PMF_Binomial`, `CDF_Binomial`: `if(p < 0.0 || p > 1.0)` -/
-def probabilityMeaningful (p : Rat) : Prop := 0 ≤ p ∧ p ≤ 1
+abbrev probabilityMeaningful (p : Rat) : Prop := 0 ≤ p ∧ p ≤ 1
 def probabilityGuard (p : Rat) : G := if p < 0 ∨ p > 1 then stop else pass
 
 /-- `PMF_Poisson`, `CDF_Poisson`: `if(expected_events < 0 || events < 0)`, `events` unsigned -/
-def poissonMeanMeaningful (mu : Rat) : Prop := 0 ≤ mu
+abbrev poissonMeanMeaningful (mu : Rat) : Prop := 0 ≤ mu
 def poissonMeanGuard (mu : Rat) : G := if mu < 0 then stop else pass
 
 /-- `PDF/CDF_Exponential(x, mean)`, `PDF/CDF_Maxwell_Boltzmann(x, a)`: `if(mean <= 0.0)` -/
-def positiveMeaningful (a : Rat) : Prop := 0 < a
+abbrev positiveMeaningful (a : Rat) : Prop := 0 < a
 def positiveGuard (a : Rat) : G := if a ≤ 0 then stop else pass
 
 /-- `Log_Likelihood_Poisson_Binned(pred, obs, bkg)`: an empty background list is replaced by zeros -/
-def binnedMeaningful (nPred nObs nBkg : Nat) : Prop := nObs = nPred ∧ (nBkg = 0 ∨ nBkg = nPred)
+abbrev binnedMeaningful (nPred nObs nBkg : Nat) : Prop := nObs = nPred ∧ (nBkg = 0 ∨ nBkg = nPred)
 def binnedGuard (nPred nObs nBkg : Nat) : G :=
   let nBkg' := if nBkg = 0 then nPred else nBkg
   if nObs ≠ nPred ∨ nBkg' ≠ nPred then stop else pass
@@ -395,7 +395,7 @@ def binnedReads (pred obs bkg : List Rat) : List (Option Rat) :=
   (List.range pred.length).flatMap fun i => [pred[i]?, obs[i]?, bkg'[i]?]
 
 /-- `Sample_Metropolis` (`k = 2`) / `Sample_Metropolis_2D` (`k = 4`): `domain.size()` is 0 or `k` -/
-def metropolisMeaningful (k n : Nat) : Prop := n = 0 ∨ n = k
+abbrev metropolisMeaningful (k n : Nat) : Prop := n = 0 ∨ n = k
 def metropolisGuard (k n : Nat) : G := if n = 0 then pass else if n = k then pass else stop
 def metropolisReads (k : Nat) (domain : List Rat) : List (Option Rat) :=
   if domain.length = 0 then [] else (List.range k).map (fun i => domain[i]?)
@@ -403,14 +403,14 @@ def metropolisReads (k : Nat) (domain : List Rat) : List (Option Rat) :=
 /-! ## 8. List helpers (include/libphysica/List_Manipulations.hpp), Utilities, units -/
 
 /-- `Transpose_Lists(lists)` with `lists[0]` of length `l0` and the others of lengths `rest` -/
-def transposeMeaningful (l0 : Nat) (rest : List Nat) : Prop := ∀ l ∈ rest, l = l0
+abbrev transposeMeaningful (l0 : Nat) (rest : List Nat) : Prop := ∀ l ∈ rest, l = l0
 def transposeGuard (l0 : Nat) (rest : List Nat) : G := if rest.all (fun l => l = l0) then pass else stop
 def transposeReads (ls : List (List Rat)) : List (Option Rat) :=
   let m := (ls.headD []).length
   (List.range ls.length).flatMap fun i => (List.range m).map fun j => (ls[i]?).bind (fun r => r[j]?)
 
 /-- `Locate_Closest_Location(sorted_list, target)`: `std::is_sorted` -/
-def closestMeaningful (l : List Rat) : Prop := l.Pairwise (· ≤ ·)
+abbrev closestMeaningful (l : List Rat) : Prop := l.Pairwise (· ≤ ·)
 def isSorted : List Rat → Bool
   | [] => true
   | [_] => true
@@ -428,29 +428,29 @@ def subListReads (v : List Rat) (i1 : Int) (i2 : Nat) : List (Option Rat) :=
     if a > b then [] else (List.range (b + 1 - a)).map (fun k => v[a + k]?)
 
 /-- `In_Units(table, dimensions)`: every row as long as `dimensions` -/
-def inUnitsMeaningful (lens : List Nat) (nd : Nat) : Prop := ∀ l ∈ lens, l = nd
+abbrev inUnitsMeaningful (lens : List Nat) (nd : Nat) : Prop := ∀ l ∈ lens, l = nd
 def inUnitsGuard (lens : List Nat) (nd : Nat) : G := if lens.all (fun l => l = nd) then pass else stop
 def inUnitsReads (q : List (List Rat)) (dims : List Rat) : List (Option Rat) :=
   (List.range q.length).flatMap fun i =>
     (List.range ((q.getD i []).length)).flatMap fun j => [(q[i]?).bind (fun r => r[j]?), dims[j]?]
 
 /-- `Export_Table(path, data, dimensions)`: `if(!dimensions.empty() && dimensions.size() != columns)` per line -/
-def exportTableMeaningful (lens : List Nat) (nd : Nat) : Prop := nd = 0 ∨ ∀ l ∈ lens, l = nd
+abbrev exportTableMeaningful (lens : List Nat) (nd : Nat) : Prop := nd = 0 ∨ ∀ l ∈ lens, l = nd
 def exportTableGuard (lens : List Nat) (nd : Nat) : G :=
   if lens.all (fun l => decide (nd = 0) || decide (nd = l)) then pass else stop
 
 /-- `Import_List(path)`: the file must exist -/
-def importListMeaningful (fileExists : Bool) : Prop := fileExists = true
+abbrev importListMeaningful (fileExists : Bool) : Prop := fileExists = true
 def importListGuard (fileExists : Bool) : G := if fileExists then pass else stop
 
 /-- `Import_Table(path, dimensions)`: the file must exist; with `rows ≥ 1` lines of `cols` numbers,
     `if(!dimensions.empty() && dimensions.size() != columns)` -/
-def importTableMeaningful (fileExists : Bool) (cols nd : Nat) : Prop := fileExists = true ∧ (nd = 0 ∨ nd = cols)
+abbrev importTableMeaningful (fileExists : Bool) (cols nd : Nat) : Prop := fileExists = true ∧ (nd = 0 ∨ nd = cols)
 def importTableGuard (fileExists : Bool) (cols nd : Nat) : G :=
   if fileExists then (if nd ≠ 0 ∧ nd ≠ cols then stop else pass) else stop
 
 /-- `Check_For_Error(error_condition, …)` -/
-def checkForErrorMeaningful (cond : Bool) : Prop := cond = false
+abbrev checkForErrorMeaningful (cond : Bool) : Prop := cond = false
 def checkForErrorGuard (cond : Bool) : G := if cond then stop else pass
 
 end Lp.C10
